@@ -308,10 +308,7 @@ def run(ctx):
 
     core.run_given(ctx, population_and_queries(), body, ctx.n(300, 1800), label="c12-queries")
     if ctx.evaluations >= 400:
-        low = [c for c in REQUIRED_CLASSES if ctx.classes.get(c, 0) < 0.01 * ctx.evaluations]
-        if low:
-            raise core.HarnessError("generator unhealthy: classes below 1%%: %s" % low)
-        ctx.notes["generator-health"] = "all %d required classes >= 1%% of evaluations" % len(REQUIRED_CLASSES)
+        core.health(ctx, REQUIRED_CLASSES)
 
 
 def replay(case):
